@@ -270,10 +270,15 @@ def run_family(out, names, expect_fail=(), tier="quick", timeout_s=None, target_
             classes.setdefault((kind, key), fc)
         # assertion models first, then cover models (Kani de-duplicates identical traces)
         models = sorted(pb.get(n, []), key=lambda m: m[0] == "cover")
-        if any(k == "unwind" for (k, _) in classes):
+        unwound = any(k == "unwind" for (k, _) in classes)
+        if unwound and all(k == "unwind" for (k, _) in classes):
             out.obligation(n, "kani", "unwind-too-small", r.time_s, witness=False)
             out.inconc("harness %s: unwinding assertion failed (bound too small for the code as it is now)" % n)
             continue
+        if unwound:
+            # other checks failed too: a model that reproduces natively is a violation whatever the bound
+            classes = {kk: v for kk, v in classes.items() if kk[0] != "unwind"}
+            out.notes.append("%s: an unwinding assertion failed as well (some inputs need more iterations than the bound)" % n)
         reproduced = None
         tried = []
         for (_, d, vals) in models:
